@@ -444,6 +444,96 @@ def drive(case):
 
 DRIVERS = {"auth": drive}
 
+# --------------------------------------------------------------------------- replayed challenge replies
+#
+# Driver "replay": {"cookie": hex, "snonce": hex, "n": 2..3, "methods": [...], "chunk": n|null}
+# n connections in one process, each a fresh TorControlProtocol with the same valid cookie.  The first server is
+# honest.  Every later server does not know the cookie: it answers AUTHCHALLENGE by replaying, verbatim, the reply
+# the first server gave (valid only for the first connection's client nonce).  It "cannot compute that hash", so it
+# must receive no AUTHENTICATE, and the connection's ready notification must fail exactly once.
+
+def replay_cases():
+    return st.builds(lambda cookie, snonce, n, extra, chunk: {
+        "cookie": cookie, "snonce": snonce, "n": n, "methods": ["SAFECOOKIE"] + extra, "chunk": chunk},
+        HEX64, HEX64, st.integers(2, 3),
+        st.sampled_from([[], ["COOKIE"], ["COOKIE", "HASHEDPASSWORD"]]),
+        st.one_of(st.none(), st.integers(1, 40)))
+
+
+def drive_replay(case):
+    res = Result()
+    base = {"methods": case["methods"], "cookiefile": {"dir": "plain", "content": "valid"}, "cookie": case["cookie"],
+            "snonce": case["snonce"], "password": "none", "challenge": "correct", "auth": "check", "boot": None,
+            "chunk": case["chunk"]}
+    path = _make_cookie_file(base)
+    recorded = {}
+    nonces = []
+    for i in range(case["n"]):
+        tor = _Tor(base, path)
+        if i > 0:
+            honest = tor._challenge
+
+            def replaying(line, tor=tor):
+                parts = line.split(" ")
+                tor.challenged = True
+                try:
+                    tor.cnonce = bytes.fromhex(parts[2])
+                except (IndexError, ValueError):
+                    tor.cnonce = None
+                tor.expected_client_hash = None
+                return recorded["reply"]
+            tor._challenge = replaying
+            tor._token_ok = lambda line: False          # this server does not know the cookie
+        else:
+            honest = tor._challenge
+
+            def recording(line, honest=honest):
+                r = honest(line)
+                recorded["reply"] = r
+                return r
+            tor._challenge = recording
+        pipe = ControlPipe(tor, auto=True, chunk=case["chunk"])
+        boot = Watch(pipe.proto.post_bootstrap)
+        pipe.connect()
+        for _ in range(20):
+            pipe.pump()
+            if tor.hangup and not pipe.lost and not pipe.pending:
+                pipe.lose()
+                continue
+            break
+        if tor.hangup and not pipe.lost:
+            pipe.lose()
+        ch = [ln for ln in tor.lines if ln.startswith("AUTHCHALLENGE SAFECOOKIE ")]
+        auths = [ln for ln in tor.lines if ln.startswith("AUTHENTICATE")]
+        if pipe.escaped:
+            res.bad("exception-escaped", repr(pipe.escaped[0]))
+        if len(ch) != 1:
+            res.bad("safecookie-not-preferred", "connection %d wrote %r" % (i, tor.lines))
+            return res
+        nonces.append(ch[0].split(" ")[2].lower())
+        if i == 0:
+            if not boot.succeeded:
+                res.bad("ready-failed-wrongly", "honest first connection: %r, lines %r" % (boot.outcome(), tor.lines))
+                return res
+        else:
+            if auths:
+                tag = "proof-sent-to-replayed-challenge-reply"
+                if nonces[i] == nonces[0]:
+                    tag = "client-nonce-reused-across-connections"
+                res.bad(tag, "connection %d: the server replayed connection 0's AUTHCHALLENGE reply (it cannot compute "
+                        "the hash for this connection) and still received %r (client nonces %r)" % (i, auths, nonces))
+            if case["cookie"].lower() in " ".join(tor.lines).lower():
+                res.bad("raw-cookie-sent-despite-safecookie", repr(tor.lines))
+            if boot.fired != 1 or not boot.failed:
+                res.bad("ready-not-failed-after-unverifiable-server-hash", "connection %d: %r" % (i, boot.outcome()))
+    res.nontrivial = True
+    res.label("replayed-challenge-x%d" % (case["n"] - 1))
+    return res
+
+
+DRIVERS["replay"] = drive_replay
+
+
 MANIFEST = {
     "text": "Generated-input search over PROTOCOLINFO method sets/orders x cookie-file conditions (incl. paths that need "
             "unescaping) x password providers x server behaviours at each step (independently recomputed SAFECOOKIE "
@@ -494,5 +584,6 @@ MUTANTS = [
 
 def run(ctx):
     ctx.search("auth", cases(), quick=2500, thorough=30000)
+    ctx.search("replay", replay_cases(), quick=60, thorough=400)
     if not ctx.quick():
         ctx.enumerate("auth", product_cases(), name="methods x cookie-state x provider x challenge product")
